@@ -220,6 +220,7 @@ def general_cases(draw):
     c["U"] = keep
     c["P"] = c["P"][: len(c["P"]) - dropped]
     return {"kind": kind, "curve": c, "qkind": draw(st.sampled_from(["grid", "on-curve"])),
+            "elevate": draw(st.sampled_from([0, 0, 1, 2])),
             "t0": draw(st.integers(1, 31)),
             "q": draw(st.lists(st.integers(-8, 8).map(lambda v: F(v, 2)), min_size=2, max_size=2))}
 
@@ -241,6 +242,13 @@ def check_general(case, out):
     else:
         curve = lib.build_curve(case["curve"])
         klass = "spline;p=%d" % case["curve"]["p"]
+        if case.get("elevate"):
+            # a reducible representation (degree-elevated by the reference): the operand must still come back untouched
+            base = lib.state_of(curve)
+            t = case["elevate"]
+            big = oracle.refine_state(base, oracle.elevated_vector(base.U, base.p, t), base.p + t)
+            curve = lib.Curve([float(u) for u in big.U], np.array([[float(x) for x in pt] for pt in big.P]))
+            klass += ";elevated"
     ref = lib.state_of(curve)
     bk = oracle.breaks(ref.U)
     out.cls(klass, "q=" + case["qkind"], "multi-span" if len(bk) > 2 else "bezier")
